@@ -27,6 +27,10 @@ BUDGET = {"quick": {"workers": 4, "examples": 300, "seconds": 40},
           "thorough": {"workers": 16, "examples": 3000, "seconds": 480}}
 
 MODES = ["string", "file_str", "file_list1", "file_split"]
+# how the file names are handed over in the file modes ("str or iterable of str")
+CONTAINERS = ["list", "list", "tuple", "generator", "iterator", "path", "dict_keys"]
+# domains mixing digit strings and the ints they spell, by size (values are told apart by type AND text)
+DIGIT_DOMS = {1: ["007"], 2: ["01", 1], 3: ["02", 2, "+2"], 4: ["01", "02", 1, 2]}
 
 
 @st.composite
@@ -60,7 +64,15 @@ def cases(draw):
     comps = [v["name"] for v in desc["variables"]] + [c["name"] for c in desc["constraints"]]
     desc["agents"] = draw(agents(comps))
     mode = draw(st.sampled_from(MODES))
-    return {"dcop": desc, "mode": mode, "nsplit": draw(st.integers(2, 3))}
+    if all(c["kind"] == "matrix" for c in desc["constraints"]) and draw(st.integers(0, 3)) == 0:
+        dn = draw(st.sampled_from(sorted(desc["domains"])))
+        old, new = desc["domains"][dn], DIGIT_DOMS[len(desc["domains"][dn])]
+        for v in desc["variables"]:
+            if v["domain"] == dn and v["initial"] is not None:
+                v["initial"] = new[old.index(v["initial"])]
+        desc["domains"][dn] = list(new)
+    return {"dcop": desc, "mode": mode, "nsplit": draw(st.integers(2, 3)),
+            "container": draw(st.sampled_from(CONTAINERS))}
 
 
 def case_strategy(tier):
@@ -151,6 +163,8 @@ def compare(desc, orig, loaded):
 def run_case(case):
     desc, mode = case["dcop"], case["mode"]
     labels = ["mode:" + mode, "agents:%d" % len(desc["agents"])]
+    if any(d in DIGIT_DOMS.values() for d in desc["domains"].values()):
+        labels.append("digit-domain")
     if any(len(d) == 1 for d in desc["domains"].values()):
         labels.append("dom1")
     if any(v["initial"] is not None and not v["initial"] for v in desc["variables"]):
@@ -179,6 +193,14 @@ def run_case(case):
                     f.write(ch)
                 paths.append(p)
             arg = paths[0] if mode == "file_str" else list(paths)
+            cont = case.get("container", "list")
+            labels.append("container:" + (cont if mode != "file_str" or cont == "path" else "str"))
+            if cont == "path":
+                import pathlib
+                arg = pathlib.Path(arg) if mode == "file_str" else [pathlib.Path(x) for x in arg]
+            elif mode != "file_str":
+                arg = {"list": list, "tuple": tuple, "generator": lambda l: (x for x in l), "iterator": iter,
+                       "dict_keys": lambda l: dict.fromkeys(l).keys()}[cont](arg)
             with under_test():
                 loaded = yamldcop.load_dcop_from_file(arg)
         with under_test():
